@@ -66,6 +66,8 @@ StrOK(s) ==
                 /\ (ToAffine(r[2])[1] # 0 => ToAffine(r[2])[1] % 2 = sg)
                 /\ (Encode(ToAffine(r[2])) = s) <=> CanonicalDecl(s)
      /\ \A ok \in BOOLEAN, x0 \in Fp : DecompressCertOK(y, ok, x0) => (ok = r[1] /\ (ok => x0 = FAbs(r[2][1])))
+     /\ \A cert \in Fp : DecompressWithCert(y, sg, cert)[1] = r[1]
+                         /\ (r[1] => DecompressWithCert(y, sg, cert) = r)
 
 Inv == CASE st[1] = "pt" -> PointOK(st[2])
          [] st[1] = "str" -> StrOK(st[2])
